@@ -1,18 +1,26 @@
 ------------------------------ MODULE MC_Lists ------------------------------
-(* C08 (B): token lists -> quoted command string -> tokens again.                                   *)
+(* C08 (B): token lists -> quoted command string -> tokens again.
+   Two families: character-level tokens (every token up to MaxTokLen over an adversarial alphabet) and
+   word-level tokens (command-line-like words: command names, "help", options, "--").              *)
 EXTENDS Tokenizer, Json
 
-CONSTANTS MaxToks, MaxTokLen
+CONSTANTS MaxToks, MaxTokLen, TokPool, Styles, Seps, Pads
 TokAlphabet == {"a", " ", "'", "\"", "\\", "-", "=", "U"}
-MCWS == {" ", "\t"}
-Styles == {"sq", "dq", "no"}
-Seps == {<<" ">>, <<"\t">>, <<" ", " ">>}
-Pads == {<<>>, <<" ">>}
-
-Toks == UNION { [1..k -> TokAlphabet] : k \in 0..MaxTokLen }
+MCWS == {" ", "\t", "<VT>"}               \* <VT> stands for a vertical tab: whitespace beyond blank and tab
+CharToks == UNION { [1..k -> TokAlphabet] : k \in 0..MaxTokLen }
+WordToks == { <<"h", "e", "l", "p">>, <<"a">>, <<"a", "a">>, <<"-", "h">>, <<"-", "-">>, <<"x">>,
+              <<"-", "-", "o", "p", "t">>, <<"-", "f">>, <<"-">> }
+AllStyles == {"sq", "dq", "no"}
+BareOnly == {"no", "dq"}
+CharSeps == {<<" ">>, <<"\t">>, <<" ", "<VT>">>}
+CharPads == {<<>>, <<" ">>, <<"<VT>">>}
+QuickSeps == {<<" ">>, <<"\t", "<VT>">>}
+QuickPads == {<<>>, <<"<VT>">>}
+OneSep == {<<" ">>}
+NoPad == {<<>>}
 
 Init == \E n \in 0..MaxToks :
-          \E ts \in [1..n -> Toks], st \in [1..n -> Styles], sp \in [1..(IF n = 0 THEN 0 ELSE n - 1) -> Seps],
+          \E ts \in [1..n -> TokPool], st \in [1..n -> Styles], sp \in [1..(IF n = 0 THEN 0 ELSE n - 1) -> Seps],
              lead \in Pads, trail \in Pads :
             /\ \A k \in 1..n : Expressible(ts[k], st[k])
             /\ Start(lead \o JoinQ(ts, st, sp, 1) \o trail, ts)
